@@ -19,7 +19,9 @@ RULE = ("history = one real consumer (70% group member, 30% group-less) over 1-2
         "ListOffsets v0..v3 x OffsetFetch v1..v3 x Fetch v1..v11 brokers; lookups (OffsetFetch, ListOffsets, "
         "FindCoordinator, Fetch, Metadata) fail with retriable error codes, are dropped, reset, delayed or lose their "
         "reply until a quiet point; in 35% of the histories seek(tp, o) lands at loop event k in {0,1,2,3,5,8,12,20,40} "
-        "after start() returned. Judged per partition after the settle bound: position() == expected start (seek target; "
+        "after start() returned; in 30% of the group histories with >= 2 partitions one partition leader is down when the "
+        "consumer starts and OffsetFetch replies are delayed, so that the per-leader lookups start at different times. "
+        "Judged per partition after the settle bound: position() == expected start (seek target; "
         "else committed offset when the broker's log contains it; else log start / log end for the isolation level; policy "
         "none: NoOffsetForPartitionError resp. OffsetOutOfRangeError from getmany()), first record returned == first "
         "visible record at/after it, and every ListOffsets(latest) request carries the consumer's isolation level. "
@@ -36,7 +38,7 @@ ASSUMPTIONS = [
 REQUIRED_COUNTERS = ["histories_judged", "partitions_judged", "start_from_committed", "reset_earliest", "reset_latest",
                      "policy_none_errors", "out_of_range_committed", "seek_wins_checked", "seek_while_lookup_in_flight",
                      "first_records_checked", "latest_requests_isolation_checked", "lookups_with_faults", "lso_below_hw",
-                     "trimmed_logs", "group_histories", "groupless_histories"]
+                     "trimmed_logs", "group_histories", "groupless_histories", "staggered_lookup_histories"]
 
 
 def prepare(tier, seed, scratch):
@@ -72,6 +74,7 @@ def run_shard(params):
         st["histories_judged"] = 1
         st["group_histories"] = 1 if P["group"] else 0
         st["groupless_histories"] = 0 if P["group"] else 1
+        st["staggered_lookup_histories"] = 1 if H.get("staggered_leader") is not None else 0
         for k, v in st.items():
             cnt[k] = cnt.get(k, 0) + v
         hits.update(H["fault_hits"])
